@@ -603,7 +603,7 @@ class Flow:
                 if src[max(0, m.start() - 3):m.start()] == "fn " or re.search(r"\bfn\s+$", src[max(0, m.start() - 8):m.start()]):
                     continue
                 key = ("." + segs[-1]) if m.group(1) else "::".join(segs[-2:])
-            out.append((key, m.start(2), j, bool(m.group(1))))
+            out.append((key, m.end(2) - len(segs[-1]), j, bool(m.group(1))))
         return out
 
     def census(self):
@@ -613,7 +613,8 @@ class Flow:
         closed, ncalls, names, sink_calls, edits = [], 0, set(), [], []
         for label in self.srcs:
             src = blank_strings(self.srcs[label])
-            is_closed = re.search(PATH_WORDS, src) is not None
+            mw = re.search(PATH_WORDS, src)
+            is_closed = mw is not None
             if is_closed:
                 closed.append(label)
             # a file-system function mentioned without being called (passed as a value) cannot be followed
@@ -643,11 +644,11 @@ class Flow:
                         sink_calls.append((label, fname, min(cover, key=len)))
                 if not is_closed:
                     continue
-                known = key in KNOWN_CALLEES or is_sink or (not is_method and not key.endswith("!") and last in local) \
+                known = key in KNOWN_CALLEES or is_sink or (is_method and key in EDIT_METHODS) or (not is_method and not key.endswith("!") and last in local) \
                     or (is_method and last in local) or (not is_method and last[:1].isupper())
                 if not known:
-                    die("%s fn %s: unknown callee `%s` in a file that handles paths — review it and add it to KNOWN_CALLEES "
-                        "(or to SINK_* if it takes a path)" % (label, fname, key))
+                    die("%s fn %s: unknown callee `%s` in a file that handles paths (it mentions `%s`) — review it and add it to "
+                        "KNOWN_CALLEES (or to SINK_* if it takes a path)" % (label, fname, key, norm(mw.group(0))))
                 if is_method and key in EDIT_METHODS and fn is not None and fn.name not in BUILDER_FNS:
                     cl = match_close(src, op)
                     r0 = receiver_start(src, src.rfind(".", 0, pos + 1))
